@@ -433,6 +433,15 @@ Definition valid_node (n : node) : bool :=
 
 Definition valid_flow (f : flow) : bool := forallb valid_node (f_nodes f).
 
+(* the flows of a session have pairwise different ids (they stand for the flow uuids, which assets keep unique) *)
+Fixpoint distinct_ids (l : list N) : bool :=
+  match l with
+  | [] => true
+  | x :: r => negb (existsb (N.eqb x) r) && distinct_ids r
+  end.
+
+Definition distinct_flow_ids (A : list flow) : bool := distinct_ids (map f_id A).
+
 (* ------------------------------------------------------------------------------------------------ *)
 (* execution, as an acceptor of observable steps *)
 
